@@ -139,11 +139,37 @@ Qed.
 Lemma wrap64_id z : - 2^63 <= z < 2^63 -> wrap64 z = z.
 Proof. unfold wrap64. intros H. change (2^63) with 9223372036854775808 in *. change (2^64) with 18446744073709551616. lia. Qed.
 
+(* exact for every capacity and every non-negative request whose quotient fits 64 bits -- in particular
+   for every request up to the capacity, whatever the capacity *)
+Lemma mem_req_to_oom_exact cap r : 0 < cap -> 0 <= r -> (1000 * r) / 2^64 < cap ->
+  mem_req_to_oom cap r = adj_of cap r.
+Proof.
+  intros Hc Hr Hq. unfold mem_req_to_oom, adj_of, mul64, div64.
+  destruct (r <? 0) eqn:E1; [lia|]. destruct (cap <=? 0) eqn:E2; [lia|]. cbn [orb].
+  replace (r * 1000) with (1000 * r) by lia.
+  destruct (cap <=? (1000 * r) / 2^64) eqn:E3; [lia|].
+  rewrite Z.mul_comm, <- Z.div_mod by (change (2^64) with 18446744073709551616; lia). reflexivity.
+Qed.
+
 Lemma mem_req_to_oom_nowrap cap r : 0 < cap -> 0 <= r -> 1000 * r < 2^63 ->
   mem_req_to_oom cap r = adj_of cap r.
 Proof.
-  intros Hc Hr Hw. unfold mem_req_to_oom, adj_of. rewrite wrap64_id by (change (2^63) with 9223372036854775808 in *; lia).
-  rewrite Z.quot_div_nonneg by lia. reflexivity.
+  intros Hc Hr Hw. apply mem_req_to_oom_exact; [lia|lia|].
+  assert ((1000 * r) / 2^64 = 0); [|lia].
+  apply Z.div_small. change (2^64) with 18446744073709551616. change (2^63) with 9223372036854775808 in Hw. lia.
+Qed.
+
+(* a request never exceeds the capacity in the table construction: exact for EVERY capacity below 2^63 *)
+Lemma mem_req_to_oom_exact_le_cap cap r : 1000 <= cap < 2^63 -> 0 <= r <= cap + cap / 1000 + 1 ->
+  mem_req_to_oom cap r = adj_of cap r.
+Proof.
+  intros Hc Hr. apply mem_req_to_oom_exact; [lia|lia|].
+  change (2^63) with 9223372036854775808 in Hc.
+  assert (H : (1000 * r) / 2^64 <= (1000 * (cap + cap / 1000 + 1)) / 2^64) by (apply Z.div_le_mono; change (2^64) with 18446744073709551616; lia).
+  assert (H2 : (1000 * (cap + cap / 1000 + 1)) / 2^64 < 1000).
+  { apply Z.div_lt_upper_bound; change (2^64) with 18446744073709551616; [lia|].
+    assert (cap / 1000 <= cap) by (apply Z.div_le_upper_bound; lia). lia. }
+  lia.
 Qed.
 
 (* the specified table entry maps back to its adjustment, and is the least such request *)
